@@ -14,6 +14,12 @@ def knobs():
     return nested.NKnobs(max_trans=5, p_cond_false=0.4)
 
 
+def knobs_enum():
+    # Enum states: one Enum class per sibling group; segment names are re-used on different levels so that
+    # two classes share member names; the machine's initial state is a root state
+    return nested.NKnobs(p_collide=0.35, p_deep_initial=0.0, max_states=9)
+
+
 def knobs_global():
     return nested.NKnobs(p_local=0.0, p_collide=0.0, max_trans=5, p_queued=0.1)
 
@@ -37,18 +43,14 @@ class C03(nestedcheck.NestedCheck):
     monitor_kind = 'c03m'
     streams = (
         NStream('random', knobs=knobs, quick=(16, 60), thorough=(48, 250)),
+        NStream('enum-states', knobs=knobs_enum, quick=(8, 40), thorough=(16, 150), enum_states=True,
+                pool=('LockedHierarchicalMachine', 'HierarchicalAsyncMachine')),   # the Mermaid graph classes reject Enum children
         NStream('global-only', knobs=knobs_global, quick=(8, 60), thorough=(24, 250)),
         NStream('random-small', knobs=knobs_small, quick=(8, 50), thorough=(24, 200)),
         NStream('exhaustive-single<=4', enum=enum_single, thorough=(32, 400), others=1, tiers=('thorough',)),
         NStream('pairs<=5', enum=enum_pairs, thorough=(64, 420), others=1, tiers=('thorough',)),
     )
-    theorems = ('TM.C03_P4_exits', 'TM.C03_P4_enters', 'TM.C03_P1_pass', 'TM.C03_P1', 'TM.C03_dispatch_global_only',
-                'TM.C03_P3_pass', 'TM.C03_P3_complete_pass', 'TM.C03_P5_pass_result', 'TM.C03_P2_source_was_active',
-                'TM.C03_P5', 'TM.C03_P5_unhandled_flat', 'TM.C03_exec_le_one_of_chain', 'TM.C03_counterexample_redispatch',
-                'TM.C03_counterexample_result_overwritten', 'TM.C03_counterexample_stale_source',
-                'TM.C03_counterexample_reentered_source', 'TM.C03_counterexample_nested_lists',
-                'TM.C03_counterexample_local_effect', 'TM.C03_counterexample_suppressed_region',
-                'TM.C03_full_counterexample', 'TM.C02_exit_children_first', 'TM.C02_new_configuration')
+    theorems = ('TM.C03_P4_exits', 'TM.C03_P4_enters', 'TM.C03_P1_pass', 'TM.C03_P1', 'TM.C03_dispatch_global_only', 'TM.C03_P2', 'TM.C03_P3_pass', 'TM.C03_P3_complete_pass', 'TM.C03_P5_pass_result', 'TM.C03_P5', 'TM.C03_P5_unhandled_flat', 'TM.C03_exec_le_one_of_chain', 'TM.C03_regression_redispatch', 'TM.C03_regression_result_overwritten', 'TM.C03_regression_stale_source', 'TM.C03_regression_reentered_source', 'TM.C03_regression_nested_lists', 'TM.C03_regression_local_effect', 'TM.C03_counterexample_suppressed_region', 'TM.C03_counterexample_pass_order', 'TM.C03_counterexample_related_passes', 'TM.C03_counterexample_entered_during_event', 'TM.C03_full_counterexample')
     rule = ('a case = (state tree, placement of transitions, condition valuation, history); non-trivial iff at least '
             'one transition with a state change executed on HierarchicalMachine; distinct by the hash of the encoded case')
     trusted = (
@@ -61,8 +63,8 @@ class C03(nestedcheck.NestedCheck):
         level='proof', design='DESIGN.md 4/C03 + design_notes/C03.md',
         technique='Lean 4 proof (executable model of hierarchical dispatch, predicates P1-P5 as decidable checkers) + '
                   'differential correspondence with the real classes + verified monitors on implementation traces',
-        text='Lean 4 proofs: P4 (exit set / enter set exactly as the statement prescribes) for every machine-level transition on every admissible configuration; P1 (executed sources form an antichain, each at most once) for one trigger_nested pass in general and for whole events on machines whose transitions are all declared on the machine; the outcome of an unhandled event on flat state values. P1-P5 are decidable checkers run as monitors on the traces of all six hierarchical classes; the full statement is refuted by seven decide witnesses (re-dispatch per region, result overwritten, stale / re-entered source, ValueError on nested lists, local declarations exit their relative root, a child-scope success suppresses sibling regions), each replayed on the real classes and listed as an open finding.',
-        note="partial: P3 (order/completeness), the 'not exited since' half of P2 and P5's result rule are monitored but not proved (P2/P5 are false on the pinned tree); P5 is judged on unqueued machines only; model hand-written, tied by correspondence; 21 open findings with narrow signatures (clause + sub-kind + whether an active state declares the event locally).")
+        text='Lean 4 proofs on a model that follows the repaired nesting.py: P4 (exit set / enter set exactly as the statement prescribes) for EVERY transition, declared on the machine or inside a state, on every admissible configuration; for machines whose transitions are all declared on the machine: P1 (executed sources form an antichain), P2 both halves (source active when the event began, not exited since), P3 per pass (innermost first, nothing after an execution, completeness), P5 (True iff some transition executed; else False / MachineError / AttributeError by the flattened state value). P1-P5 are decidable checkers run as monitors on the traces of all six hierarchical classes (string and Enum states). The full statement is refuted for events declared inside state definitions, which are dispatched in separate passes per scope (four decide witnesses, replayed on the real classes, five open findings); the six defects closed by the adopted fixes are regression theorems and regression corpus cases.',
+        note="partial where findings remain open: all open findings require an ACTIVE state that declares the event in its own definition (signatures '...@local'); the pass theorems are stated on projections of the ghost segment (sOffers, execSources), not on the monitor's internal offer list; P5 is judged on unqueued machines only; model hand-written, tied by correspondence.")
 
     def assumptions(self):
         return (
